@@ -615,6 +615,35 @@ func init() {
 			}
 			return nil
 		},
+		// sync.Pool model: a LIFO free list per Pool (the most eager reuse the real
+		// per-P caches allow): Get hands back the item most recently Put, else New()
+		"(*sync.Pool).Get": func(fr *frame, args []value) value {
+			e := fr.e
+			p := args[0].(*value)
+			if l := e.syncPools[p]; len(l) > 0 {
+				x := l[len(l)-1]
+				e.syncPools[p] = l[:len(l)-1]
+				return x
+			}
+			if st, ok := (*p).(structure); ok && len(st) > 0 {
+				if newFn := st[len(st)-1]; newFn != nil && !payloadIsNil(newFn) {
+					return e.call(fr, 0, newFn, nil)
+				}
+			}
+			return iface{}
+		},
+		"(*sync.Pool).Put": func(fr *frame, args []value) value {
+			e := fr.e
+			p := args[0].(*value)
+			if e.syncPools == nil {
+				e.syncPools = map[*value][]value{}
+			}
+			if x, ok := args[1].(iface); ok && x.t == nil {
+				return nil
+			}
+			e.syncPools[p] = append(e.syncPools[p], args[1])
+			return nil
+		},
 		"(*sync.Once).Do": func(fr *frame, args []value) value {
 			w := fr.e.waitgroup(args[0].(*value))
 			if w.n == 0 {
